@@ -3,6 +3,7 @@
    starting from all_dies_iterator(dw), the iterator yields every DIE exactly once, in section order, its ancestor
    stack holds exactly the offsets of the DIE's ancestors (outermost first), parent() is the parent DIE, and after the
    last DIE it equals end(). */
+#define C02_DWIT 1
 #include "dwit_types.h"
 #include "dwit_protos.h"
 #include "dw_model2.h"
